@@ -72,6 +72,12 @@ func LoggerFor(n int) hclog.Logger {
 	return NullLogger()
 }
 
+// SlowLogger: a quiet logger whose Debug calls take a little time - code that logs in the middle of a critical section (or
+// of what should be one) keeps the window open that long
+type SlowLogger struct{ hclog.Logger }
+
+func (SlowLogger) Debug(msg string, args ...interface{}) { time.Sleep(40 * time.Microsecond) }
+
 // Server is a running gldap server
 type Server struct {
 	S      *gldap.Server
